@@ -432,6 +432,55 @@ class _Frame(PyStub):
     def copy(self, deep=True):
         return _Frame({c: v.copy() for c, v in self.cols.items()})
 
+    @property
+    def loc(self):
+        return _RowsBy(self, positional=False)
+
+    @property
+    def iloc(self):
+        return _RowsBy(self, positional=True)
+
+    @property
+    def dtypes(self):
+        return _DTypes({c: _Col(v).dtype for c, v in self.cols.items()})
+
+    @property
+    def columns(self):
+        return list(self.cols)
+
+
+class _RowsBy(PyStub):
+    """frame.loc[mask] / frame.iloc[mask or positions]: rows only (the merged tables are renumbered, so labels and positions coincide)"""
+    def __init__(self, frame, positional):
+        self.frame, self.positional = frame, positional
+
+    def __getitem__(self, k):
+        import numpy as np
+        from ..symx import Opaque as _Opaque
+        if isinstance(k, (tuple, str, slice)):
+            raise _Opaque('row/column selection %r outside the table model' % (k,))
+        k = np.asarray(k.v if isinstance(k, _Col) else k)
+        if k.dtype == bool:
+            if len(k) != len(self.frame):
+                raise IndexError('Boolean index has wrong length')
+            return self.frame[k]
+        rows = [int(v) for v in np.ravel(k)]
+        return _Frame({c: v[rows] for c, v in self.frame.cols.items()})
+
+
+class _DTypes(PyStub):
+    def __init__(self, d):
+        self.d = d
+
+    def to_dict(self):
+        return dict(self.d)
+
+    def items(self):
+        return list(self.d.items())
+
+    def __getitem__(self, k):
+        return self.d[k]
+
 
 def flatten_model(ctx):
     """Log.flatten interpreted on model tables (exact Step values, tagged data values)"""
